@@ -391,10 +391,10 @@ class Interp:
             if name in f.locals:
                 if f.locals[name] is LOOP_CARRIED:
                     raise Unsupported(f"local {name} is read after a summarised loop that assigns it")
-                return f.locals[name]
+                return unpoisoned(f.locals[name])
             f = f.parent
         if name in fr.globals:
-            return fr.globals[name]
+            return unpoisoned(fr.globals[name])
         b = self.lib.builtins.get(name)
         if b is not None:
             return b
@@ -651,7 +651,7 @@ class Interp:
             if v.external:
                 return self.lib.external_name(f"{v.name}.{name}")
             if name in v.ns:
-                return v.ns[name]
+                return unpoisoned(v.ns[name])
             raise RaiseSig(self.make_exc("AttributeError", site=node))
         if isinstance(v, ExternalName):
             return self.lib.ext_attr(self, v, name)
@@ -1108,7 +1108,7 @@ class Interp:
     def ex_Assign(self, s, fr):
         if self.comprehension_as_loop(s, fr):
             return
-        v = self.ev(s.value, fr)
+        v = self.definition_value(s.value, fr, s.targets)
         if isinstance(v, LibObj) and v.kind == "local_dict" and v.heap is None and not v.py and fr.func is not None \
                 and len(s.targets) == 1 and isinstance(s.targets[0], ast.Name):
             lt = getattr(self.w.types, "LOCALS", {}).get((fr.func.qualname, s.targets[0].id))
@@ -1123,7 +1123,18 @@ class Interp:
 
     def ex_AnnAssign(self, s, fr):
         if s.value is not None:
-            self.assign(s.target, self.ev(s.value, fr), fr)
+            self.assign(s.target, self.definition_value(s.value, fr, [s.target]), fr)
+
+    def definition_value(self, expr, fr, targets):
+        """The value of an assignment.  At module or class level (executed once, when the source is loaded) a defining expression
+        outside the subset does not stop the run: the name is bound to a Poison, and only the functions that use it are outside
+        the subset (their units fall back to the bounded stand-in)."""
+        if fr.func is not None or fr.spec or not all(isinstance(t, ast.Name) for t in targets):
+            return self.ev(expr, fr)
+        try:
+            return self.ev(expr, fr)
+        except Unsupported as e:
+            return Poison(f"{targets[0].id} is defined by an expression outside the subset ({e})")
 
     def ex_AugAssign(self, s, fr):
         cur = self.ev(s.target, fr)
@@ -1335,9 +1346,20 @@ class Interp:
         self.ex_With(s, fr, is_async=True)
 
     def ex_FunctionDef(self, s, fr):
-        fr.locals[s.name] = self.w.make_function(self, s, fr, None)
+        self.define(s.name, fr, lambda: self.w.make_function(self, s, fr, None))
 
     ex_AsyncFunctionDef = ex_FunctionDef
+
+    def define(self, name, fr, make):
+        """def / class at module or class level: a definition outside the subset (a decorator or default without a model, a class
+        body that cannot be evaluated) poisons the name instead of stopping the run (see definition_value)."""
+        if fr.func is not None or fr.spec:
+            fr.locals[name] = make()
+            return
+        try:
+            fr.locals[name] = make()
+        except Unsupported as e:
+            fr.locals[name] = Poison(f"{name} is defined outside the subset ({e})")
 
     def ex_Import(self, s, fr):
         self.w.exec_import(self, s, fr)
@@ -1346,7 +1368,7 @@ class Interp:
         self.w.exec_import(self, s, fr)
 
     def ex_ClassDef(self, s, fr):
-        fr.locals[s.name] = self.w.make_class(self, s, fr)
+        self.define(s.name, fr, lambda: self.w.make_class(self, s, fr))
 
     def ex_Assert(self, s, fr):
         pass
